@@ -130,3 +130,19 @@ Fixpoint ins_id {A} (x : Z * A) (l : list (Z * A)) : list (Z * A) :=
   | y :: t => if (fst x <=? fst y)%Z then x :: l else y :: ins_id x t
   end.
 Definition order_by_id {A} (jobs : list (Z * A)) : list (Z * A) := fold_right ins_id [] jobs.
+
+(* NOT what the code does (it converts the last id component with int()): the same sort with the ids compared as
+   decimal STRINGS, i.e. digit lists in lexicographic order - kept as the witness of why the ids above are integers *)
+Fixpoint lex_leb (a b : list nat) : bool :=
+  match a, b with
+  | [], _ => true
+  | _ :: _, [] => false
+  | x :: s, y :: t => (x <? y) || ((x =? y) && lex_leb s t)
+  end.
+Fixpoint ins_lex {A} (x : list nat * A) (l : list (list nat * A)) : list (list nat * A) :=
+  match l with
+  | [] => [x]
+  | y :: t => if lex_leb (fst x) (fst y) then x :: l else y :: ins_lex x t
+  end.
+Definition order_by_digits {A} (jobs : list (list nat * A)) : list (list nat * A) := fold_right ins_lex [] jobs.
+Definition digits_value (ds : list nat) : nat := fold_left (fun a d => 10 * a + d) ds 0.
